@@ -201,7 +201,7 @@ fn gen_secret(t: &mut Tape, slow: bool) -> Secret {
                 m: 8 * p * *t.pick(&[1u32, 1, 2, 4]),
                 t: *t.pick(&[1u32, 1, 2, 3]),
                 p,
-                out: *t.pick(&[0u8, 0, 16, 32, 64, 4]),
+                out: *t.pick(&[0u8, 0, 16, 32, 64, 10]),
             }
         }
         _ => Secret::Verbatim(t.pick(VERBATIM).to_string()),
@@ -382,7 +382,7 @@ impl Check for C29 {
     }
     fn rule(&self) -> String {
         "store of 1-3 users (names from a pool or generated: empty, Unicode, containing ':' '{MD5}' 'md5' '$argon2' '#' spaces), secrets: {MD5}password, \
-         harness-made Argon2id/i/d PHC strings with tiny cost (m=8-64 KiB, t=1-3, p=1-2, 4-64 byte tags), 13 invalid verbatim strings, and in 1 of 1000 \
+         harness-made Argon2id/i/d PHC strings with tiny cost (m=8-64 KiB, t=1-3, p=1-2, 10-64 byte tags), 13 invalid verbatim strings, and in 1 of 1000 \
          cases a password hashed by the server at default cost (add_user / cleartext file line); built through add_user/add_user_hashed (later call \
          wins) or, when every entry is representable as a `user:secret` line, through load_from_file (35%, with comment/blank lines). 1-4 probes per \
          case against known users (80%) or near-miss user names: cleartext = correct / 8 small edits / empty / other user's / md5 response / random / \
@@ -413,7 +413,7 @@ impl Check for C29 {
         800
     }
     fn floors(&self) -> Vec<(&'static str, f64)> {
-        vec![("secret:md5", 0.3), ("secret:phc", 0.2), ("via:file", 0.1), ("probe:md5", 0.3), ("probe:clear", 0.2), ("near_miss", 0.2)]
+        vec![("secret:md5", 0.3), ("secret:phc", 0.2), ("via:file", 0.1), ("probe:md5", 0.3), ("probe:clear", 0.2), ("near_miss", 0.1)]
     }
 
     fn build(&self, t: &mut Tape, cfg: &GenCfg) -> Case {
